@@ -340,8 +340,8 @@ func typesUpTo(depth int) []*Ty {
 		add(extra)
 	}
 	if depth >= 2 {
-		r0 := leaves(repBasics)
-		r1 := applyAll(r0, mapKeys(), true)
+		// every constructor over every depth-1 type of the full leaf alphabet
+		r1 := applyAll(l0, mapKeys(), true)
 		add(applyAll(r1, mapKeys(), true))
 	}
 	if depth >= 3 {
